@@ -1,0 +1,17 @@
+//go:build verif
+
+// Contracts for the deductive checks under /verif (comment-only; compiled only with -tags verif).
+
+package sha3
+
+// Trusted library contract: hashing reads its inputs, writes nothing the caller can see and
+// returns a fresh 32-byte (64-byte) digest. The digest value is left uninterpreted.
+//@ func Keccak256
+//@   trusted
+//@   ensures len(result) == 32 && cap(result) >= 32 && fresh(result)
+//@   assigns nothing
+
+//@ func Keccak512
+//@   trusted
+//@   ensures len(result) == 64 && cap(result) >= 64 && fresh(result)
+//@   assigns nothing
